@@ -133,11 +133,11 @@ class Curve(BSpline.Curve):
 
     @ctrlpts.setter
     def ctrlpts(self, value):
-        # Check if we can retrieve the existing weights. If not, generate a weights vector of 1.0s.
-        if not self.weights:
+        # Check if we can retrieve the existing weights. If not (there are none, or they belong to a different number of
+        # control points), generate a weights vector of 1.0s.
+        weights = self.weights
+        if len(weights) != len(value):
             weights = [1.0 for _ in range(len(value))]
-        else:
-            weights = self.weights
 
         # Generate weighted control points using the new control points
         ctrlptsw = compatibility.combine_ctrlpts_weights(value, weights)
@@ -339,11 +339,11 @@ class Surface(BSpline.Surface):
         if self.ctrlpts_size_u <= 0 or self.ctrlpts_size_v <= 0:
             raise ValueError("Please set the number of control points on the u- and v-directions")
 
-        # Check if we can retrieve the existing weights. If not, generate a weights vector of 1.0s.
-        if not self.weights:
+        # Check if we can retrieve the existing weights. If not (there are none, or they belong to a different number of
+        # control points), generate a weights vector of 1.0s.
+        weights = self.weights
+        if len(weights) != len(value):
             weights = [1.0 for _ in range(len(value))]
-        else:
-            weights = self.weights
 
         # Generate weighted control points using the new control points
         ctrlptsw = compatibility.combine_ctrlpts_weights(value, weights)
@@ -527,11 +527,11 @@ class Volume(BSpline.Volume):
         if self.ctrlpts_size_u <= 0 or self.ctrlpts_size_v <= 0 or self.ctrlpts_size_w <= 0:
             raise ValueError("Please set the number of control points for all u-, v- and w-directions")
 
-        # Check if we can retrieve the existing weights. If not, generate a weights vector of 1.0s.
-        if not self.weights:
+        # Check if we can retrieve the existing weights. If not (there are none, or they belong to a different number of
+        # control points), generate a weights vector of 1.0s.
+        weights = self.weights
+        if len(weights) != len(value):
             weights = [1.0 for _ in range(len(value))]
-        else:
-            weights = self.weights
 
         # Generate weighted control points using the new control points
         ctrlptsw = compatibility.combine_ctrlpts_weights(value, weights)
